@@ -54,6 +54,22 @@ func (fr *frame) bumpAlloc(st *state) {
 func (fr *frame) callWithArgs(st *state, c *ssa.CallCommon, instr ssa.Instruction, pos token.Pos, args []string) []string {
 	// call-site assertions of the enclosing contract ("at" clauses), keyed by the call's source text
 	text := fr.anchorText(pos, "callfull")
+	if fr.top && len(fr.fc.c.Never) > 0 && instr != nil && text != "" {
+		for pre, label := range fr.fc.c.Never {
+			if strings.HasPrefix(text, pre) {
+				if _, ok := fr.fc.c.At[text]; ok {
+					continue
+				}
+				if _, ok := fr.fc.c.After[text]; ok {
+					continue
+				}
+				if label == "" {
+					label = "never"
+				}
+				fr.oblige(st, "at", text+"."+label, pos, "false", "the contract forbids a call of the form "+pre+"... in this function")
+			}
+		}
+	}
 	if len(fr.fc.c.At) > 0 {
 		if cls, ok := fr.fc.c.At[text]; ok && instr != nil {
 			if fr.fc.atHit == nil {
